@@ -274,16 +274,25 @@ fn c08(cases_path: &str, quick: bool, out: &mut dyn Write) {
                 }
                 let body = if same { render_tokens_with(&top, &inner, true) } else { body.clone() };
                 // every reply in both namespace styles: default namespace, and the base namespace bound to a prefix
-                for pfx in [false, true] {
+                // 0: default namespace, 1: the base namespace bound to a prefix, 2: the reply is taken off the transport
+                // and parked for its owner by another request's future
+                for variant in 0..3 {
+                    let pfx = variant == 1;
+                    let parked = variant == 2;
                     if pfx && (same || (quick && k % 3 != 0 && nerr == 0)) {
                         continue;
                     }
+                    if parked && (same || op == "close-session" || (quick && k % 4 != 1)) {
+                        continue;
+                    }
+                    PARKED.store(parked, std::sync::atomic::Ordering::Relaxed);
                     let r = std::panic::catch_unwind(|| run_op_ns(op, &body, pfx));
+                    PARKED.store(false, std::sync::atomic::Ordering::Relaxed);
                     let (outcome, errs, detail) = r.unwrap_or_else(|_| ("panic".into(), vec![], String::new()));
                     writeln!(
                         out,
                         "{}",
-                        json!({"ev": "c08", "case": k, "type": ty, "op": op, "top": top, "inner": inner, "same": same, "prefixed": pfx,
+                        json!({"ev": "c08", "case": k, "type": ty, "op": op, "top": top, "inner": inner, "same": same, "prefixed": pfx, "parked": parked,
                                "outcome": outcome, "errs": errs, "detail": detail})
                     )
                     .unwrap();
